@@ -29,6 +29,10 @@ class Raised(Exception):
         super().__init__(kind)
         self.kind = kind
         self.payload = payload
+        self.where = None  # innermost statement of /repo at which the fragment raises (line, source text)
+
+    def __str__(self):
+        return self.kind if self.where is None else f"{self.kind} (at line {self.where[0]}: {self.where[1]})"
 
 
 class _Return(Exception):
@@ -347,6 +351,8 @@ class Evaluator:
                 r = f(left, right)
             except TypeError:
                 raise Raised("TypeError")
+            if len(n.ops) == 1 and not isinstance(r, bool):
+                return r  # a sample-domain object that overloads the comparison (e.g. a recorded linear constraint)
             if not r:
                 return False
             left = right
@@ -500,7 +506,10 @@ class Evaluator:
                 except (ValueError, KeyError, IndexError, AttributeError, ZeroDivisionError, FileNotFoundError) as e:
                     raise Raised(type(e).__name__)  # a stub of the sample domain signals what the real collaborator would raise
             if getattr(type(recv), "_fold_ok", False) and callable(getattr(recv, a, None)):
-                return getattr(recv, a)(*args, **kwargs)  # method of a sample-domain class supplied by the rule
+                try:
+                    return getattr(recv, a)(*args, **kwargs)  # method of a sample-domain class supplied by the rule
+                except (ValueError, KeyError, IndexError, AttributeError, ZeroDivisionError, TypeError) as e:
+                    raise Raised(type(e).__name__)
             model = getattr(type(recv), "_model", None)
             if model is not None and model.has(a):
                 return model.call(a, recv, args, kwargs)  # real method of the class in /repo, lifted on demand
@@ -560,6 +569,7 @@ class Evaluator:
         except _Return as r:
             return ("return", r.value)
         except Raised as r:
+            self.last_raised = r
             return ("raise", r.kind)
         except _Continue:
             return ("continue", None)
@@ -569,7 +579,15 @@ class Evaluator:
 
     def _block(self, stmts):
         for st in stmts:
-            self._exec(st)
+            try:
+                self._exec(st)
+            except Raised as r:
+                if r.where is None and not isinstance(st, (ast.For, ast.While, ast.If, ast.With, ast.Try)):
+                    try:
+                        r.where = (getattr(st, "lineno", 0), ast.unparse(st).splitlines()[0][:100])
+                    except Exception:
+                        pass
+                raise
 
     def _exec(self, st):
         if isinstance(st, ast.Assign):
@@ -797,6 +815,8 @@ class Lifted:
         self.vararg = a.vararg.arg if a.vararg else None
         self.kwarg = a.kwarg.arg if a.kwarg else None
         self.body = [s for s in fn.body if not (isinstance(s, ast.Expr) and isinstance(s.value, ast.Constant))]
+        self.is_gen = any(isinstance(n, (ast.Yield, ast.YieldFrom)) for st in self.body for n in ast.walk(st)
+                          if not isinstance(st, (ast.FunctionDef, ast.ClassDef)))
 
     def bind(self, args, kw):
         loc = {}
@@ -834,7 +854,9 @@ class Lifted:
         ev.locals.update(self.bind(args, kw))
         kind, val = ev.run(self.body)
         if kind == "raise":
-            raise Raised(val)
+            raise getattr(ev, "last_raised", None) or Raised(val)
+        if self.is_gen:
+            return list(ev.yields)  # a generator function: the (finite) sequence it yields
         return val if kind == "return" else None
 
 
